@@ -10,6 +10,7 @@
 #include "utils/symbol.h"
 #include "utils/utils.h"
 #include <dlfcn.h>
+#include <pthread.h>
 #include <lauxlib.h>
 #include <lua.h>
 #include <lualib.h>
@@ -351,6 +352,60 @@ static int luajit_atfork_prepare(void)
 	return 0;
 }
 
+/*
+ * There is one lua_State for the whole process: calls into it from the
+ * threads of the traced program must not overlap (as in script-python.c).
+ */
+static pthread_mutex_t luajit_interpreter_lock = PTHREAD_MUTEX_INITIALIZER;
+
+static int luajit_uftrace_entry_locked(struct script_context *sc_ctx)
+{
+	int ret;
+
+	pthread_mutex_lock(&luajit_interpreter_lock);
+	ret = luajit_uftrace_entry(sc_ctx);
+	pthread_mutex_unlock(&luajit_interpreter_lock);
+	return ret;
+}
+
+static int luajit_uftrace_exit_locked(struct script_context *sc_ctx)
+{
+	int ret;
+
+	pthread_mutex_lock(&luajit_interpreter_lock);
+	ret = luajit_uftrace_exit(sc_ctx);
+	pthread_mutex_unlock(&luajit_interpreter_lock);
+	return ret;
+}
+
+static int luajit_uftrace_event_locked(struct script_context *sc_ctx)
+{
+	int ret;
+
+	pthread_mutex_lock(&luajit_interpreter_lock);
+	ret = luajit_uftrace_event(sc_ctx);
+	pthread_mutex_unlock(&luajit_interpreter_lock);
+	return ret;
+}
+
+/* wait for the callbacks in flight: the child must not inherit a held lock */
+static int luajit_atfork_prepare_locked(void)
+{
+	pthread_mutex_lock(&luajit_interpreter_lock);
+	pthread_mutex_unlock(&luajit_interpreter_lock);
+	return luajit_atfork_prepare();
+}
+
+static int luajit_uftrace_end_locked(void)
+{
+	int ret;
+
+	pthread_mutex_lock(&luajit_interpreter_lock);
+	ret = luajit_uftrace_end();
+	pthread_mutex_unlock(&luajit_interpreter_lock);
+	return ret;
+}
+
 #define INIT_LUAJIT_API_FUNC(func)                                                                 \
 	do {                                                                                       \
 		dl##func = dlsym(luajit_handle, #func);                                            \
@@ -401,11 +456,11 @@ static int load_luajit_api_funcs(void)
 int script_init_for_luajit(struct script_info *info, enum uftrace_pattern_type ptype)
 {
 	pr_dbg("%s()\n", __func__);
-	script_uftrace_entry = luajit_uftrace_entry;
-	script_uftrace_exit = luajit_uftrace_exit;
-	script_uftrace_event = luajit_uftrace_event;
-	script_uftrace_end = luajit_uftrace_end;
-	script_atfork_prepare = luajit_atfork_prepare;
+	script_uftrace_entry = luajit_uftrace_entry_locked;
+	script_uftrace_exit = luajit_uftrace_exit_locked;
+	script_uftrace_event = luajit_uftrace_event_locked;
+	script_uftrace_end = luajit_uftrace_end_locked;
+	script_atfork_prepare = luajit_atfork_prepare_locked;
 
 	if (load_luajit_api_funcs() < 0)
 		return -1;
